@@ -1,5 +1,6 @@
 import Driver.C10
 import ThunderModel.Sql.Live
+import ThunderModel.Sql.ColMap
 /-! C07 handler: replays a history of the live-SQL model step by step. -/
 open Lean TM.Sql.Live TM.Sql.Batch TM.Sql.Limit
 
@@ -59,9 +60,30 @@ def replay (cfg : Cfg) : St → List Label → Nat → List Json → (St × Opti
     | some s' => replay cfg s' ls (i + 1) (stepInfo cfg s l s' :: acc)
     | none => (s, some i, acc.reverse)
 
+def decColEv (j : Json) : Except String TM.Sql.ColMap.Ev := do
+  match ← str j "k" with
+  | "tmap" => pure (.tmap (← nat j "id") (← nat j "v"))
+  | "rows" => pure (.rows (← nat j "v") (← nat j "cur"))
+  | k => throw s!"C07: unknown column-map event {k}"
+
+def encColOut : TM.Sql.ColMap.Out → Json
+  | .none => Json.null
+  | .decoded f c => Json.mkObj [("fetched", f), ("with", (c : Nat))]
+
 def handle : Handler := fun req => do
   let op ← str req "op"
   match op with
+  | "colmap" =>
+    let evs ← listOf decColEv (← field req "events")
+    let v0 ← nat req "v0"
+    let cfg : TM.Sql.ColMap.Cfg := match (str req "cfg").toOption with
+      | some "noFlush" => TM.Sql.ColMap.noFlush
+      | _ => TM.Sql.ColMap.repaired
+    let outs := TM.Sql.ColMap.run cfg {} evs
+    pure <| Json.mkObj [
+      ("wf", TM.Sql.ColMap.wf v0 none false evs),
+      ("outs", Json.arr (outs.map encColOut).toArray),
+      ("right", TM.Sql.ColMap.allRight evs outs)]
   | "run" =>
     let tables ← listOf (listOf Driver.C10.decRow) (← field req "tables")
     let qs ← listOf decQuery (← field req "queries")
